@@ -943,6 +943,7 @@ class AstEval:
         self.local_sym_table: SymTable = {}
         self.user_locals: SymTable = {}
         self.curr_func: EvalFunc | None = None
+        self.class_scopes: list[tuple] = []
         self.filename = name
         self.code_str: str | None = None
         self.code_list: list[str] | None = None
@@ -1112,15 +1113,41 @@ class AstEval:
             sym_table = metaclass.__prepare__(arg.name, tuple(bases), **keywords)
         else:
             sym_table = {}
+        #
+        # the body of a class defined in a function sees that function's local variables (but not
+        # those of an enclosing class); remember where they are while the body runs
+        #
+        if self.class_scopes and self.class_scopes[-1][2] is self.sym_table:
+            func_sym_table = self.class_scopes[-1][1]
+        else:
+            func_sym_table = self.sym_table if self.curr_func else None
+        # names the class body binds itself are class attributes or globals, never the function's variables
+        bound, todo = set(), list(arg.body)
+        while todo:
+            node = todo.pop()
+            if isinstance(node, (ast.FunctionDef, ast.AsyncFunctionDef, ast.ClassDef)):
+                bound.add(node.name)
+                continue
+            if isinstance(node, ast.Lambda):
+                continue
+            if isinstance(node, ast.Name) and not isinstance(node.ctx, ast.Load):
+                bound.add(node.id)
+            elif isinstance(node, ast.alias):
+                bound.add((node.asname or node.name).split(".")[0])
+            todo.extend(ast.iter_child_nodes(node))
+        self.class_scopes.append((self.curr_func, func_sym_table, sym_table, bound))
         self.sym_table_stack.append(self.sym_table)
         self.sym_table = sym_table
-        for arg1 in arg.body:
-            val = await self.aeval(arg1)
-            if isinstance(val, EvalReturn):
-                raise SyntaxError(f"{val.name()} statement outside function")
-            if isinstance(val, EvalStopFlow):
-                raise SyntaxError(f"{val.name()} statement outside loop")
-        self.sym_table = self.sym_table_stack.pop()
+        try:
+            for arg1 in arg.body:
+                val = await self.aeval(arg1)
+                if isinstance(val, EvalReturn):
+                    raise SyntaxError(f"{val.name()} statement outside function")
+                if isinstance(val, EvalStopFlow):
+                    raise SyntaxError(f"{val.name()} statement outside loop")
+        finally:
+            self.sym_table = self.sym_table_stack.pop()
+            self.class_scopes.pop()
 
         decorators = [await self.aeval(dec) for dec in arg.decorator_list]
         sym_table["__init__evalfunc_wrap__"] = None
@@ -1599,6 +1626,13 @@ class AstEval:
                 return self.sym_table[arg.id]
             if arg.id in self.local_sym_table:
                 return self.local_sym_table[arg.id]
+            if self.class_scopes:
+                func, func_sym_table, class_sym_table, bound = self.class_scopes[-1]
+                if func_sym_table and class_sym_table is self.sym_table and func is self.curr_func:
+                    if arg.id in func_sym_table and arg.id not in bound:
+                        if isinstance(func_sym_table[arg.id], EvalLocalVar):
+                            return func_sym_table[arg.id].get()
+                        return func_sym_table[arg.id]
             if arg.id in self.global_sym_table:
                 if self.curr_func and arg.id in self.curr_func.local_names:
                     raise UnboundLocalError(f"local variable '{arg.id}' referenced before assignment")
